@@ -1110,7 +1110,7 @@ fn main() {
         exhaustive(&mut rep, &mut git, len, len <= 2);
     }
     let n = args.budget(2_500, 60_000);
-    let git_hist = args.budget(600, 6_000);
+    let git_hist = args.budget(600, 2_500);
     for i in 0..n {
         let ops = gen_history(&mut r);
         do_history(&mut rep, &mut git, &ops, i < git_hist, "random");
